@@ -22,7 +22,10 @@ PlaceOK ==
       IF Overlaps(Ev.h, Ev.w, Ev.H, Ev.W, o[1], o[2])
         THEN Ev.out = "ok" /\ Ev.matrix = FitInto(Ev.h, Ev.w, Ev.H, Ev.W, o[1], o[2])
         ELSE Ev.out = "rejected"
-TPlace == Is("place") /\ PlaceOK /\ UNCHANGED ivars /\ Step
+\* A model that fits a map onto the detector (route "equiv:<model>") behaves exactly as if it had been given
+\* the already fitted map - the one the load-image route placed, decided by PlaceOK - at offset (0, 0).
+IsEquiv == "equiv" \in DOMAIN Ev
+TPlace == Is("place") /\ (IF IsEquiv THEN Ev.equiv ELSE PlaceOK) /\ UNCHANGED ivars /\ Step
 TWrite == Is("write") /\ WriteFile(Ev.path) /\ Step
 TLoad  == Is("load") /\ Load(Ev.path) /\ loads'[Len(loads')].got = Ev.got /\ Step
 TFormat == Is("format") /\ Ev.same /\ UNCHANGED ivars /\ Step
